@@ -193,8 +193,23 @@ func ImportSnapshot(nhConfig config.NodeHostConfig,
 	if err != nil {
 		return err
 	}
+	getSnapshotDir := func(cid uint64, nid uint64) string {
+		return env.GetSnapshotDir(nhConfig.DeploymentID, cid, nid)
+	}
+	ssEnv := server.NewSSEnv(getSnapshotDir,
+		oldss.ShardID, replicaID, oldss.Index, replicaID, server.SnapshotMode, fs)
+	finalDir := ssEnv.GetFinalDir()
 	if exist {
-		if err := cleanupSnapshotDir(ssDir, fs); err != nil {
+		// the snapshot currently recorded in the LogDB must stay on disk until
+		// the imported one has been recorded, only the directories this import
+		// is going to use are cleared now. all other snapshot directories are
+		// removed once the imported snapshot is recorded.
+		for _, dir := range []string{ssEnv.GetTempDir(), finalDir} {
+			if err := fs.RemoveAll(dir); err != nil {
+				return err
+			}
+		}
+		if err := fileutil.SyncDir(ssDir, fs); err != nil {
 			return err
 		}
 	} else {
@@ -203,16 +218,10 @@ func ImportSnapshot(nhConfig config.NodeHostConfig,
 			return err
 		}
 	}
-	getSnapshotDir := func(cid uint64, nid uint64) string {
-		return env.GetSnapshotDir(nhConfig.DeploymentID, cid, nid)
-	}
-	ssEnv := server.NewSSEnv(getSnapshotDir,
-		oldss.ShardID, replicaID, oldss.Index, replicaID, server.SnapshotMode, fs)
 	if err := ssEnv.CreateTempDir(); err != nil {
 		return err
 	}
 	dstDir := ssEnv.GetTempDir()
-	finalDir := ssEnv.GetFinalDir()
 	ss := getProcessedSnapshotRecord(finalDir, oldss, memberNodes, fs)
 	if err := copySnapshot(oldss, srcDir, dstDir, fs); err != nil {
 		return err
@@ -220,10 +229,18 @@ func ImportSnapshot(nhConfig config.NodeHostConfig,
 	if err := ssEnv.FinalizeSnapshot(&ss); err != nil {
 		return err
 	}
-	return logdb.ImportSnapshot(ss, replicaID)
+	if err := logdb.ImportSnapshot(ss, replicaID); err != nil {
+		return err
+	}
+	if exist {
+		return cleanupSnapshotDir(ssDir, fs.PathBase(finalDir), fs)
+	}
+	return nil
 }
 
-func cleanupSnapshotDir(dir string, fs vfs.IFS) error {
+// cleanupSnapshotDir removes all snapshot directories found in dir other than
+// the one named keep.
+func cleanupSnapshotDir(dir string, keep string, fs vfs.IFS) error {
 	files, err := fs.List(dir)
 	if err != nil {
 		return err
@@ -233,7 +250,7 @@ func cleanupSnapshotDir(dir string, fs vfs.IFS) error {
 		if err != nil {
 			return err
 		}
-		if !fi.IsDir() {
+		if !fi.IsDir() || fi.Name() == keep {
 			continue
 		}
 		name := []byte(fi.Name())
